@@ -135,6 +135,25 @@ def check_case(ctx, case, want_model_dump=True):
         if a != b:
             return ctx.fail("decoding-differs", f"packet {ph[:120]}: before {str(a)[:500]} after {str(b)[:500]}",
                             dict(case, packets=[ph]))
+    # a definition that has been used for decoding is written the same way: same structure after a reload, and (no
+    # packet having changed it) the same document as before
+    try:
+        x3 = etree.tostring(d0.to_xml_tree())
+        d3 = reload(d0, x3)
+        dump3 = xdoc.lib_dump(d3)
+    except Exception as e:
+        return ctx.fail("write-after-use-raised", f"writing / re-loading the definition after it decoded "
+                                                  f"{len(case['packets'])} packets raised {e!r} [{exc_sig(e)}]", case,
+                        bucket="write-after-use-raised:" + exc_sig(e))
+    df = xdoc.diff(dump0, dump3)
+    if df:
+        return ctx.fail("roundtrip-differs-after-use", f"the definition written after it decoded {len(case['packets'])} "
+                                                       f"packets differs: {df}", case,
+                        bucket="roundtrip-differs-after-use:" + df.split(":")[0].split("/")[-1].split("[")[0])
+    if x3 != x1:
+        return ctx.fail("written-form-changed-by-use", "the document written after decoding differs from the one "
+                                                       "written before", case)
+    ctx.cls("written again after decoding")
     return None
 
 
